@@ -1,7 +1,7 @@
 /- C16 helper lemmas, part 2: per-bucket invariants in counting form and what every bucket
 operation does to them. -/
 import Discv5Model.Proofs.IpFilterShapes
-namespace Discv5.KB
+namespace Discv5.KB.Ip
 
 def inS (s : Nat) : KV := fun _ v => decide (v.subnet = some s)
 def keyIs (k : Nat) : KV := fun k' _ => k' == k
@@ -294,4 +294,4 @@ theorem remove_NB (keyOf : Val → Nat) (mi pt now tick : Nat) (b : Bucket Val) 
     · intro p hp n hn
       exact pending_value_fresh keyOf b hu hv p hp n (mem_removeAt _ _ _ hn)
 
-end Discv5.KB
+end Discv5.KB.Ip
